@@ -90,8 +90,8 @@ class _Conn(object):
         w = self.world
         w.step()
         self._pump()
-        if self.rx or self.peer_closed:
-            w.clock.t += 5e-5
+        if self.rx or self.peer_closed or getattr(w.peer, 'read_error', False):
+            w.clock.t += 1e-3
             return True
         due = self._next_due()
         if timeout is None:
@@ -104,7 +104,7 @@ class _Conn(object):
             w.clock.t = due
             self._pump()
             return True
-        w.clock.t += max(timeout, 0) + 5e-5
+        w.clock.t += max(timeout, 0) + 1e-3
         return False
 
 
